@@ -293,6 +293,57 @@ def rule_iff(ctx):
         ctx.check(ok, "C16.IFF", "indi/client/device.py::Device.process_message[first definition]", "DefinitionUpdate + chain start (None -> value/state)", f"a first definition raises {evs}", fi=p.cls("indi.client.device.Device").find_method("process_message"), text="first-def")
 
 
+def rule_atomic(ctx):
+    """Validate-then-store: if decoding or validating an update raises (truncated BLOB, size mismatch), the element's
+    value must not have been replaced already - otherwise the value changes without any event and the chain breaks."""
+    p = ctx.p
+    from ..absint import Builtin
+    ebase = p.cls("indi.client.elements.Element")
+    n = 0
+
+    def raiser(ev):
+        callee = ev.data.get("callee")
+        if isinstance(callee, Builtin) and callee.name in ("int", "float"):
+            return "ValueError"
+        if isinstance(callee, Foreign) and "b64decode" in callee.dotted:
+            return "Error"
+        return None
+
+    for ci in ebase.subclasses:
+        f = ci.find_method("process_message")
+        sv = ci.find_method("set_value_from_message")
+        n += 1
+        kind = ci.name
+        mcls = p.class_constant(ci, "set_message_class")
+
+        def pol(fi, node):
+            return fi.module.name in ("indi.client.elements", "indi.device.values")
+
+        def run(it: Interp, ci=ci, mcls=mcls):
+            el = Obj(ci, {"name": Const("A"), "vector": Obj(None, label="<vector>"), "_value": Const("old"), "_new_value": Const(None)}, label="el")
+            it.el = el
+            attrs = {"name": Const("A"), "value": Term("param", "text", pytype="str"), "__closed__": Const(True)}
+            if kind == "BLOB":
+                attrs["size"] = Term("param", "size", pytype="str")
+                attrs["format"] = Term("param", "format", pytype="str")
+            m = Obj(mcls, attrs, label="part")
+            return it.run_function(Fn(f, el), [m], {})
+
+        paths = explore(p, run, {"inline": pol, "assert_forks": True, "call_may_raise": raiser, "instantiate": lambda c_: c_.qualname == "indi.device.values.BLOB", "max_depth": 8})
+        ctx.paths_enumerated += len(paths)
+        bad = False
+        for pa in paths:
+            if pa.outcome != "raise":
+                continue
+            v = pa.interp.el.attrs.get("_value")
+            if not (isinstance(v, Const) and v.v == "old"):
+                ctx.violated("C16.ATOMIC", f"{sv.short}[{kind}]", f"when decoding/validating an update raises ({show(pa.value)[:40]}) the element's value has already been replaced by {show(v)[:40]}: the value changes without a ValueUpdate, so a listener holds a stale value and the next event's old value was never announced", fi=sv, text=f"store-before-validate:{kind}", witness="setBLOBVector whose size attribute disagrees with the payload")
+                bad = True
+        if not bad:
+            ctx.holds("C16.ATOMIC", f"{sv.short}[{kind}]", "no store to the element's value on any raising path", fi=sv)
+    ctx.floor("C16.ATOMIC", "client element classes", n, 5)
+
+
 def rule_chain(ctx):
     p = ctx.p
     f = p.cls("indi.client.device.Device").find_method("process_message")
@@ -329,5 +380,6 @@ RULES = [
     ("C16.CONTAIN", rule_contain, "per-callback containment inside the dispatch loop"),
     ("C16.REGISTRY", rule_registry, "single registry written only by onevent/rmonevent, read at dispatch time"),
     ("C16.IFF", rule_iff, "update events are exactly the changes, (old,new) = (previous,current)"),
+    ("C16.ATOMIC", rule_atomic, "an update that fails to decode/validate leaves the element's value untouched (no silent change)"),
     ("C16.CHAIN", rule_chain, "re-definition continues the event chain"),
 ]
